@@ -108,7 +108,8 @@ def run_history(start, dt, kinds, begin_settings, compress, crash_k, trunc, two_
     viol = []
     if kinds and kinds[0] in ("twins", "bystander"):
         return run_special(start, dt, kinds, compress, crash_k, order)
-    label = "start=%r dt=%r steps=%r begin-settings=%s compress=%s crash-after=%d trunc=%s two=%s listing=%s" % (start, dt, kinds, begin_settings, compress, crash_k, trunc, two_instances, order)
+    kl = kinds if len(kinds) <= 14 else kinds[:3] + ["... (%d steps)" % len(kinds)] + kinds[-2:]
+    label = "start=%r dt=%r steps=%r begin-settings=%s compress=%s crash-after=%d trunc=%s two=%s listing=%s" % (start, dt, kl, begin_settings, compress, crash_k, trunc, two_instances, order)
     factory = srv.make_factory(start, stop, dt)
     srv.listdir_order(order)
     reqs = requests_of(kinds, 2)
@@ -301,6 +302,9 @@ def jobs(tier):
         for compress in (False, True):
             for k in range(1, n + 1):
                 out.append((st, dt, ["v1", "v2p"] * (n // 2), False, compress, k, None, False))
+    # a long stretch of steps without settings before the crash (size ladder)
+    for (n, k) in ([(120, 119)] if tier == "quick" else [(120, 119), (420, 400), (420, 421)]):
+        out.append((0, 1, ["v1"] + ["nobody"] * n, False, False, k, None, False))
     # step times whose text order differs from their numeric order: negative times, more than ten steps
     for (st, dt, n) in ((-2, 1, 3), (-1, 0.5, 4), (0, 1, 12)):
         for kinds in (["v1"] + ["nobody"] * (n - 2) + ["v2p"], ["nobody", "v1"] + ["empty"] * (n - 2)):
